@@ -74,9 +74,13 @@ CHECKS = {
              "derivability), totality with InvalidChord as the only error for every string, encode range "
              "(root/bass in 0..11, 12-long 0/1 bitmap containing the bass), sentinels, encode semantics against a "
              "hand-transcribed specification of shorthands/degrees/reduction, join∘split preserves the encoding for "
-             "every permutation of the degree set; regex acceptance vs the grammar is tied by an exhaustive-to-depth "
-             "differential (2.99 M labels in the thorough tier) plus mutated strings.",
-        note="CHORD_RE itself is not translated: regex = grammar rests on the exhaustive differential and Python's re. "
+             "every permutation of the degree set; CHORD_RE itself is REGENERATED (harness/translate/regex.py: the pattern "
+             "string from chord.py's AST, parsed by Python's own re._parser, emitted as a Lean regex term) and proved, for "
+             "every string, to accept exactly the grammar (Props/C10_Regex.lean: a verified regex matcher decides a "
+             "denotational semantics with context-sensitive anchors; the pattern's language is decomposed structurally "
+             "into accidentals / degrees / item list / shorthands / bass); the `$`-variant is proved to accept label+newline.",
+        note="Trusted on the regex path: Python's re implements the regex semantics (validated on every run: CHORD_RE and "
+             "random patterns vs the verified matcher, incl. newlines, NUL, non-ASCII, runs of 4000 accidentals) and the translator. "
              "The finding (validate_chord_label accepted a valid label followed by one newline) was repaired (CHORD_RE ends with \\Z); acceptance = grammar is now proved without exception.",
         design="§5 C10"),
     "C18": dict(
@@ -186,16 +190,26 @@ CHECKS = {
              "totality theorems now hold without exception.",
         design="§5 C17"),
     "C19": dict(
-        text="PARTIAL. Lean 4 proofs about the logic around an ABSTRACT projection operator: the four components sum to "
+        text="Lean 4 proofs (a) about the logic around an ABSTRACT projection operator: the four components sum to "
              "the estimate for any projection, source criteria are scale-invariant under homogeneity, the returned "
              "permutation is a permutation maximising mean SIR (first maximiser in itertools order) and follows a "
              "reordering of the estimates for a unique maximiser, framewise windows / fall-back / per-window "
-             "consistency / NaN masks / arities; the model is run against the real code's own intermediates; the "
-             "projection numerics are covered by a numerical oracle only.",
-        note="The least-squares projection (_project, _project_images: FFT, Toeplitz solve) is modelled-not-verified; its "
-             "homogeneity is a hypothesis of the scale theorems. Repaired: images-framewise isr uninitialised on silent windows, 4 arrays on empty input, AttributeError on a singular "
-             "system under numpy 2. Known finding that remains: image SDR/ISR are not scale-invariant (by definition of the "
-             "image criteria).",
+             "consistency / NaN masks / arities; and (b) (Props/C19_LS.lean over MirModel/SeparationLS.lean) about an EXACT "
+             "rational model of the least-squares projection _project itself (delayed zero-padded references, Gram matrix, "
+             "Gaussian elimination, projected signal) for all inputs: elimination is sound, unique and succeeds exactly on "
+             "matrices with trivial kernel; the projection satisfies the normal equations, lies in the span, minimises "
+             "the squared error, is homogeneous in the estimate, invariant under rescaling references and idempotent "
+             "on the span, so that decomposition / scale-invariance / perfect-estimate theorems hold for the concrete "
+             "model with NO hypothesis on the projection, end to end for every output of the exact bss_eval_sources "
+             "incl. the permutation; _project_images is _project channel by channel. The exact model is tied to the "
+             "real _project, _project_images, _bss_decomp_mtifilt(_images), the criteria and bss_eval_sources/_images "
+             "(forced filter length 1..3, cached-G path, lstsq fall-back) by correspondence at 1e-9.",
+        note="PARTIAL in one respect: that the FFT / Toeplitz / solve / fftconvolve pipeline computes the exact projection "
+             "in binary64 is correspondence (small filter lengths) and numerical oracle (flen 512), not proof. Repaired: "
+             "images-framewise isr uninitialised on silent windows, 4 arrays on empty input, AttributeError on a singular "
+             "system under numpy 2. Known findings that remain: image SDR/ISR are not scale-invariant (by definition of the "
+             "image criteria); on exactly rank-deficient references np.linalg.solve sometimes returns without "
+             "LinAlgError and _project_images returns a signal that is not the projection.",
         design="§5 C19"),
     "C20": dict(
         text="Lean 4 proofs over List Char with abstract token converters, for files of any length: split/join round "
@@ -255,6 +269,28 @@ CHECKS = {
 }
 
 NOT_YET = "check not built yet (work in progress; see DESIGN.md §9)"
+
+
+_FM = (" util.f_measure itself is REGENERATED from /repo's AST on every run (lean/MirGen/Scalars.lean) and proved equal to "
+       "the hand model for all arguments (Props/%s_Gen.lean), so the P/R/F theorems speak about the code as translated.")
+for _p in ("C01", "C02", "C06", "C07"):
+    CHECKS[_p]["text"] += _FM % _p
+CHECKS["C04"]["text"] += (" key.validate_key / split_key_string / weighted_score and KEY_TO_SEMITONE are REGENERATED from the "
+                          "source on every run and proved equal to the key model (Props/C04_KeyGen.lean), incl. the documented "
+                          "key-relationship table on the translated code.")
+for _p in ("C09", "C10"):
+    CHECKS[_p]["text"] += (" chord.pitch_class_to_semitone / scale_degree_to_semitone are REGENERATED from the source on every "
+                           "run and proved equal to the hand models (Props/%s_Gen.lean)." % _p)
+CHECKS["C05"]["text"] += (" Task level: the hit totals recovered from multipitch.metrics (raw and chroma), onset.f_measure and "
+                          "beat.f_measure are compared with exact maximum-matching sizes.")
+CHECKS["C13"]["text"] += (" Histories: re-expressing the SAME array / label-list objects to several ranges must give, at every "
+                          "step, what a fresh copy of the annotation gives.")
+CHECKS["C14"]["text"] += (" Valid annotation objects are scored a second time by the same and by other entry points of the task "
+                          "(a call that damages its input makes the next call reject a valid annotation).")
+CHECKS["C15"]["text"] += (" Histories include evaluate() of several tasks with non-default metric keywords (keyword routing must "
+                          "not depend on which same-named metric of another task ran before).")
+CHECKS["C18"]["text"] += (" Call sequences: consecutive resampling / metrics calls whose estimate time bases share length and end "
+                          "points but not the interior time stamps.")
 
 
 def main():
